@@ -207,7 +207,11 @@ def check_splitter_guards(fx, rep, rule):
                     if is_L:
                         ew = [pol for at, pol in a.items() if at[0] == "bool" and at[1][0] == "call" and at[1][1].endswith("str::ends_with")]
                         em = [pol for at, pol in a.items() if at[0] == "empty"]
-                        if not (ew and all(ew) and em and not any(em)):
+                        # find form: the token ends at the `;` that `find(|&(_, c)| c == ';')?` stopped at (predicate and slice end
+                        # are decided by the tokenizer rule C16.6/object-scan), so the terminator needs no second test
+                        found_semicolon = any(at[0] == "is" and at[2] == "Some" and pol and at[1][0] == "mcall" and at[1][1] == "std::iter::Iterator::find"
+                                              for at, pol in a.items())
+                        if not ((ew and all(ew) and em and not any(em)) or found_semicolon):
                             ok_push = False
     rep.check(rule, "%s/splitter/object-type-terminated" % rule, ok_push and n_push >= 2, loc=F.short_file(b["sp"]),
               found="%d push path(s); every object-type push is guarded by ends_with([';']) and non-empty: %s" % (n_push, ok_push),
@@ -217,7 +221,7 @@ def check_splitter_guards(fx, rep, rule):
            and not q.endswith("java_base_types")]
     idxs = [n for hb in hb_ for n in F.walk(hb["body"]) if n.get("k") == "Index" or F.is_call(n, "std::ops::Index::index")]
     gets = [n for hb in hb_ for n in F.walk(hb["body"]) if F.is_call(n, "core::str::<impl str>::get")]
-    rep.check(rule, "%s/splitter/checked-slicing" % rule, not idxs and len(gets) >= 2, loc=F.short_file(b["sp"]),
+    rep.check(rule, "%s/splitter/checked-slicing" % rule, not idxs and len(gets) >= 1, loc=F.short_file(b["sp"]),
               found="%d raw index/slice operations, %d get(..) calls" % (len(idxs), len(gets)), expected="all slicing by computed byte indices goes through str::get(..)?", nontrivial=False)
 
 
@@ -233,6 +237,27 @@ def byte_offset(n, fam, seen=None):
     if n.get("k") == "Binary" and n["op"] == "Add":
         a, b = byte_offset(n["l"], fam, seen), byte_offset(n["r"], fam, seen)
         return "sum" if (a and b) else None
+    if n.get("k") in ("If", "Match", "Block") and len(seen) < 12:
+        # a value chosen by if / match / block: every branch that yields a value yields a byte offset
+        k_ = n["k"]
+        if k_ == "If":
+            branches = [n["then"], n["else"]] if n.get("else") is not None else None
+        elif k_ == "Match":
+            branches = [a_["body"] for a_ in n["arms"]] if FL.try_operand(n) is None else None
+        else:
+            branches = [n["tail"]] if n.get("tail") is not None else None
+        if branches is None:
+            return None
+        got = []
+        for br in branches:
+            b_ = F.strip(br)
+            if b_.get("ty") == "!" or b_.get("k") in ("Continue", "Break", "Return"):
+                continue
+            r_ = byte_offset(br, fam, seen)
+            if r_ is None:
+                return None
+            got.append(r_)
+        return "byte offset on every branch" if got else None
     if n.get("k") == "Call" and "fn" in n and len(seen) < 12:
         # a private helper returning an index (e.g. `skip_object_type(&mut chars, start) -> usize`): its result is a byte offset
         # if its tail value is one inside the helper, where its own usize parameters are byte offsets because every argument
@@ -308,7 +333,7 @@ def check_byte_offsets(fx, rep, rule):
                     rep.check(rule, "%s/splitter/byte-offset/%s/%s" % (rule, f["name"], C.canon(f["e"])), r is not None, loc=F.loc(n),
                               found="slice bound %s = %s%s" % (f["name"], F.pp(f["e"]), (" (%s)" % r) if r else " mixes in a value that is not a byte offset"),
                               expected="slice bounds are byte offsets: char_indices() indices, literals, str len, and sums of those")
-    rep.floor(rule + "/byte-offset", n_b, 4, "slice bounds in the descriptor splitter")
+    rep.floor(rule + "/byte-offset", n_b, 2, "slice bounds in the descriptor splitter (4 counted; merged arms leave one slice with two bounds)")
 
 
 def check_tokenizer(fx, rep, rule):
@@ -403,6 +428,14 @@ def check_tokenizer(fx, rep, rule):
                 for k2, v2 in a_.items():
                     if k2[0] == "is" and k2[2] == "Some" and k2[1] == ("call", PT, (k_[1],)) and v2 is True:
                         return False
+        if FIND is not None:
+            # find form: the token ends at the character find() stopped at, which satisfies the predicate `c == ';'` (checked
+            # by the object-scan rule) - the token is non-empty and ends with ';' whether or not the code re-tests it
+            tk = mk_payload(get(first, last), "Some", "0")
+            if a_.get(("empty", tk)) is True:
+                return False
+            if a_.get(("bool", call("core::str::ends_with", tk, ("array", (("lit", "char", ";"),))))) is False:
+                return False
         for k_, v_ in a_.items():
             if k_[0] == "empty" and v_ is True:
                 for k2, v2 in a_.items():
